@@ -11,5 +11,8 @@ def run(rep, tier, seed):
     lemmas.run(rep, ["chain"], tier)
     run_cfgs(rep, cfgs(SYSTEM, tier))
     need_both_answers(rep)
+    from ._common import lookalike_history
+    lookalike_history(rep, SYSTEM, "rc2")
+    lookalike_history(rep, SYSTEM, "z3")
     drive.stub_validation(rep, systems=[SYSTEM], limit=30 if tier == "quick" else None)
     rep.assumptions.append("L2 configurations replace OptimizerRC2.minimal_correction_subsets by its specification (justified by C15 part 2); L1 configurations run it on the RC2 stand-in")
